@@ -54,12 +54,13 @@ class Chooser:
 
 
 class Action:
-    __slots__ = ("kind", "key", "apply")
+    __slots__ = ("kind", "key", "apply", "when")
 
-    def __init__(self, kind: str, key: str, apply: Callable[[], None]) -> None:
+    def __init__(self, kind: str, key: str, apply: Callable[[], None], when: float = 0.0) -> None:
         self.kind = kind
         self.key = key
         self.apply = apply
+        self.when = when
 
     def label(self) -> str:
         return f"{self.kind}:{self.key}"
@@ -145,7 +146,7 @@ class World:
         if self.timers_enabled:
             self.loop.purge_cancelled_timers()
             for i, h in enumerate(self.loop.due_group()):
-                acts.append(Action("fire", f"{h._when - vtime.START:g}#{i}", self._firer(h)))
+                acts.append(Action("fire", f"{h._when - vtime.START:g}#{i}", self._firer(h), h._when))
         if self.extra_actions is not None:
             acts.extend(self.extra_actions())
         if self.cancel_budget > 0:
@@ -198,9 +199,11 @@ class World:
         self.trace.append(a.label())
         a.apply()
         for _ in range(self.batch - 1):
-            more = [
-                b for b in self.enabled() if b.kind in ("resume", "cancel", "fire") or True
-            ]
+            # a second event landing in the same loop iteration: only events that can happen at
+            # this very instant (timers already due, external resumes / cancellations)
+            more = [b for b in self.enabled() if b.kind != "fire" or b.when <= vtime.CLOCK.now]
+            if not more:
+                break
             # choice 0 = run the loop now
             j = self.ch.choose(len(more) + 1, "batch")
             if j == 0:
